@@ -403,4 +403,94 @@ theorem lazy_run_eq_eager_run : ∀ (fuel : Nat) (s : RState), (eagerRunA fuel s
               have ih := lazy_run_eq_eager_run fuel s' h
               exact ⟨⟨htok, ih.1⟩, ih.2⟩
 
+/-! ### a step that yields a token other than an offset table is never one of the designed differences -/
+
+theorem not_anom_of_body (s : RState) (t : Token) (s' : RState) (hb : s.nextBody = (some (some (.ok t)), s'))
+    (hne : ∀ vs, t ≠ .offsetTable vs) : Anom s = false := by
+  cases ha : Anom s
+  · rfl
+  · exfalso
+    unfold Anom at ha
+    unfold RState.nextBody at hb
+    cases hs : s.inSequence
+    · simp only [hs, Bool.false_eq_true, if_false] at ha hb
+      rcases hst : s.seqDelimiters with _ | ⟨⟨i, l, p, b⟩, rest⟩
+      all_goals (try (cases i <;> cases p))
+      all_goals (simp only [hst] at ha hb)
+      -- plain top: the only anomaly is the stray delimiter, which yields no token
+      all_goals first
+        | (cases hlh : s.lastHeader with
+            | some header => simp [hlh] at ha
+            | none =>
+              simp only [hlh] at ha hb
+              rcases hd : s.dec.decodeHeader with e | ⟨hh, d⟩
+              · simp [hd] at ha
+              · simp only [hd, Bool.and_eq_true, bne_iff_ne, ne_eq, beq_iff_eq, List.isEmpty_iff] at ha hb
+                obtain ⟨⟨h1, h2⟩, h3⟩ := ha
+                simp [h1, h2, h3] at hb)
+        | (-- pixel data item
+            simp only [Bool.and_eq_true, bne_iff_ne, ne_eq, Bool.not_eq_true'] at ha
+            obtain ⟨hu, hag⟩ := ha
+            unfold itemValueAgrees at hag
+            simp only [hu, if_false] at hb
+            by_cases ho : s.offsetTableNext = true
+            · simp only [ho, if_true] at hb
+              rcases hr : rdMany (rd32 s.dec.ts.bigEndian) (l / 4) s.dec.rest with _ | ⟨vs, r⟩
+              · simp [hr] at hb
+              · simp only [hr] at hb
+                injection hb with h1 h2
+                injection h1 with h1; injection h1 with h1; injection h1 with h1
+                exact hne vs h1.symm
+            · simp [ho] at hag)
+    · simp only [hs, if_true] at ha hb
+      rcases hd : s.dec.decodeItemHeader with e | ⟨ih, d⟩
+      · simp only [hd] at ha hb
+        cases e <;> simp at ha
+        rcases hst : s.seqDelimiters with _ | ⟨t0, rest⟩
+        · simp [hst] at ha
+        · simp only [hst] at ha hb
+          simp [ha] at hb
+      · simp [hd] at ha
+
+/-- from a successful eager step (for every loop fuel) that yields anything but an offset table: the step
+is none of the designed differences -/
+theorem calm_of_next (s : RState) (t : Token) (s' : RState) (h : s.next 1 = (some (.ok t), s'))
+    (hne : ∀ vs, t ≠ .offsetTable vs) : AnomStep s = false := by
+  unfold AnomStep
+  unfold RState.next at h
+  cases hb : s.hardBreak
+  · simp only [hb, Bool.false_eq_true, if_false] at h
+    simp only [Bool.not_false, Bool.true_and]
+    cases hp : s.delimiterCheckPending
+    · simp only [hp, Bool.false_eq_true, if_false] at h ⊢
+      rcases hn : s.nextBody with ⟨r, s''⟩
+      rw [hn] at h
+      cases r with
+      | none => simp [RState.next] at h
+      | some r =>
+        simp only at h
+        injection h with h1 h2
+        subst h1; subst h2
+        exact not_anom_of_body s t s'' hn hne
+    · simp only [hp, if_true] at h ⊢
+      rcases hus : s.updateSeqDelimiters with ⟨ur, s1⟩
+      rw [hus] at h
+      cases ur with
+      | error e => rfl
+      | ok o =>
+        cases o with
+        | some tok => rfl
+        | none =>
+          simp only at h ⊢
+          rcases hn : s1.nextBody with ⟨r, s''⟩
+          rw [hn] at h
+          cases r with
+          | none => simp [RState.next] at h
+          | some r =>
+            simp only at h
+            injection h with h1 h2
+            subst h1; subst h2
+            exact not_anom_of_body s1 t s'' hn hne
+  · simp [hb]
+
 end Dicom.LE
